@@ -1,7 +1,7 @@
 /-
 Towards C03: clauses that bind nothing (existence tests).
 -/
-import BW.Proofs.PlannerStep6
+import BW.Proofs.PlannerStep6b
 set_option linter.unusedSimpArgs false
 open BW.Model BW.Spec BW.Proofs.ClauseOrder BW.Proofs.Store BW.Proofs.Lookup
 
